@@ -189,6 +189,17 @@ def run(tier, seed, t0, only=None):
         for _ in range(nb):
             m = rnd.getrandbits(nbits) or 1
             insts.append(c09.instance('mask', d, (m, (m | rnd.getrandbits(nbits)) if rnd.random() < 0.6 else None)))
+    # predicate points outside the care set whose cover box lies entirely above / below a hint, care = the hints
+    # (the configuration of the defect repaired by 04078e2; a hand-made instance per sign shape)
+    hints = {'g333': '(x \\in 0..2) /\\ (y \\in 0..2) /\\ (z \\in 0..2)', 'p': '(x \\in 2..5) /\\ (y \\in 1..3)',
+             'n': '(x \\in -4..-1) /\\ (y \\in -1..1)', 's': '(x \\in -2..1) /\\ (y \\in 0..3)'}
+    outside = {'g333': ['(x = 1) /\\ (y = 3)', '(x = 3) /\\ (y = 3) /\\ (z = 0)'], 'p': ['(x = 3) /\\ (y = 0)', '(x >= 6) /\\ (y = 2)', '(x <= 1) /\\ (y = 0)'],
+               'n': ['(x = -2) /\\ (y = -2)'], 's': ['(x = 0) /\\ (y = 1)']}
+    inside = {'g333': '(x = 0) /\\ (y <= 1)', 'p': '(x = 4) /\\ (y >= 2)', 'n': '(x <= -3) /\\ (y = 0)', 's': '(x = -1) /\\ (y <= 2)'}
+    for d in hints:
+        for o in outside[d]:
+            insts.append(c09.instance('expr', d, (f'({o}) \\/ ({inside[d]})', hints[d])))
+            insts.append(c09.instance('expr', d, (f'({o})', hints[d])))
     size = 10 if tier == 'quick' else 60
     tasks = []
     for i in range(0, len(insts), size):
